@@ -71,7 +71,7 @@ pub fn eval_in_child(case: &Case, scratch: &str, n: usize) -> Vec<Violation> {
         match child.try_wait() {
             Ok(Some(st)) => break st,
             Ok(None) => {
-                if t0.elapsed().as_secs() > 30 {
+                if t0.elapsed().as_secs() > 8 {
                     hang = true;
                     let _ = child.kill();
                 }
@@ -97,7 +97,7 @@ pub fn eval_in_child(case: &Case, scratch: &str, n: usize) -> Vec<Violation> {
         }
     }
     if !done {
-        let (class, site) = if hang { ("hang".to_string(), "watchdog".to_string()) } else { crate::controller::classify_death(&status, &err) };
+        let (class, site) = if hang { ("hang".to_string(), crate::controller::HANG_SITE.to_string()) } else { crate::controller::classify_death(&status, &err) };
         if let Some(v) = crate::controller::death_violation(&case.prop, case, &class, &site, &err) {
             vs.push(v);
         }
